@@ -33,7 +33,10 @@ def reverse(routes, dynamic=None, name='VerifRev'):
 
         class _Rev(ReverseProxyBasePlugin):
             def routes(self):
-                return list(rts) + list(dyn.keys())
+                # entries of `routes` may be static tuples or dynamic regex strings (order preserved);
+                # dynamic regexes not listed there are appended
+                listed = [r for r in rts if isinstance(r, str)]
+                return list(rts) + [k for k in dyn.keys() if k not in listed]
 
             def handle_route(self, request, pattern):
                 return dyn[pattern.pattern](request)
